@@ -28,7 +28,7 @@ class RootPredicate[T](Predicate[T]):
 def find_root_predicate(start_frame, predicate: Predicate) -> Predicate | None:
     for frame in get_frames(start_frame):
         for key, value in reversed(frame.f_locals.items()):
-            if isinstance(value, Predicate) and value != predicate and key != "self":
+            if isinstance(value, Predicate) and value is not predicate and key != "self":
                 if predicate_in_predicate_tree(value, predicate):
                     return value
     return None
